@@ -13,7 +13,7 @@ frames), so the fuel is not an artefact: running out of it *is* the Go index pan
 
 Options modelled exactly: table on/off and size, `NoNullMove`, `NoReduceSlides`, `MultiCut`, `MaxEvals`,
 `Depth`, `RandomizeWindow/Scale` (random numbers from the oracle).  `DedupSymmetry` is modelled relative
-to `Game.symHashes`.  Sorting: see `MoveGen.lean`.  Deadlines (`ctx.Deadline`) are not modelled
+to `Game.symHashes` (instantiated for Tak by the driver with `Tak.symmetries`, the model of `symmetry.Symmetries`).  Sorting: see `MoveGen.lean`.  Deadlines (`ctx.Deadline`) are not modelled
 (callers in the harness use contexts without deadline); `Debug` logging and the cut log are ignored. -/
 namespace Search
 open Tak (Err)
@@ -463,74 +463,78 @@ def analyze [DecidableEq M] (g : Game P M) (cfg : Cfg) (o : Oracle M) (p : P) (s
 /-- the generator literal of `GetMove`/`AnalyzeAll`: `ply 0`, no table entry -/
 def rootMG (depth : Int) (pv : List M) : MG M := ⟨0, depth, none, pv⟩
 
+/-- body of the loop of `AnalyzeAll`: the child is searched with the window `(-v-1, -v+1)`; it is listed when its
+value is exactly `v` and its move is not the first PV move -/
+def aaBody [DecidableEq M] (g : Game P M) (cfg : SOpts) (o : Oracle M) (depth : Int) (pv0 : M) (rest : List M)
+    (v : Int) (m : M) (child : P) (out : List (List M)) (s : Eng M) :
+    Except Err (Ctl (List (List M)) Unit × Eng M) := do
+  let sm ← setA s.stackM 0 m "stack[0].m"
+  let r ← pvSearch g cfg o 1 child (depth - 1) rest (-v - 1) (-v + 1) { s with stackM := sm }
+  if -r.1.2 != v then pure (.next out, r.2)
+  else if g.moveEq m pv0 then pure (.next out, r.2)
+  else pure (.next (out ++ [m :: r.1.1.getD []]), r.2)
+
+/-- the part of `AnalyzeAll` after `Analyze` returned `(pv, v, st)` -/
+def analyzeAllFrom [DecidableEq M] (g : Game P M) (cfg : Cfg) (o : Oracle M) (p : P)
+    (pv : List M) (v : Int) (st : Stats) (s : Eng M) : Except Err ((List (List M) × Int × Stats) × Eng M) :=
+  match pv with
+  | [] => .ok (([], v, st), s)
+  | pv0 :: rest =>
+    match iterate g cfg.opts o p (rootMG st.depth pv) (aaBody g cfg.opts o st.depth pv0 rest v) [pv] s with
+    | .error e => .error e
+    | .ok (.next out, s) | .ok (.brk out, s) => .ok ((out, v, st), s)
+    | .ok (.ret _, s) => .ok (([pv], v, st), s)
+
 /-- `AnalyzeAll` -/
 def analyzeAll [DecidableEq M] (g : Game P M) (cfg : Cfg) (o : Oracle M) (p : P) (s : Eng M) :
     Except Err ((List (List M) × Int × Stats) × Eng M) :=
   match analyze g cfg o p s with
   | .error e => .error e
-  | .ok ((pv, v, st), s) =>
-    match pv with
-    | [] => .ok (([], v, st), s)
-    | pv0 :: rest =>
-      let body : M → P → List (List M) → Eng M → Except Err (Ctl (List (List M)) Unit × Eng M) :=
-        fun m child out s =>
-          match setA s.stackM 0 m "stack[0].m" with
-          | .error e => .error e
-          | .ok sm =>
-            let s := { s with stackM := sm }
-            match pvSearch g cfg.opts o 1 child (st.depth - 1) rest (-v - 1) (-v + 1) s with
-            | .error e => .error e
-            | .ok ((ms, cv), s) =>
-              if -cv != v then .ok (.next out, s)
-              else if g.moveEq m pv0 then .ok (.next out, s)
-              else .ok (.next (out ++ [m :: ms.getD []]), s)
-      match iterate g cfg.opts o p (rootMG st.depth pv) body [pv] s with
-      | .error e => .error e
-      | .ok (.next out, s) | .ok (.brk out, s) => .ok ((out, v, st), s)
-      | .ok (.ret _, s) => .ok (([pv], v, st), s)
+  | .ok ((pv, v, st), s) => analyzeAllFrom g cfg o p pv v st s
 
 structure GmAcc (M : Type) where
   rv : M
   i : Int
+
+/-- body of the loop of the randomised move choice in `GetMove` (`base = v - RandomizeWindow`) -/
+def gmBody [DecidableEq M] (g : Game P M) (cfg : Cfg) (o : Oracle M) (depth : Int) (rest : List M) (v base : Int)
+    (m : M) (child : P) (a : GmAcc M) (s : Eng M) : Except Err (Ctl (GmAcc M) Unit × Eng M) := do
+  let sm ← setA s.stackM 0 m "stack[0].m"
+  let r ← pvSearch g cfg.opts o 1 child (depth - 1) rest (-v - 1) (-base) { s with stackM := sm }
+  let s := r.2
+  let cv := -r.1.2
+  if cv ≤ base then pure (.next a, s)
+  else
+    let pts := Int.tdiv (cv - base) cfg.randomizeScale
+    -- fixes/C04-randomize-scale.diff: candidates without positive weight are skipped
+    if pts ≤ 0 then pure (.next a, s) else
+    let i := a.i + pts
+    if i ≤ 0 then throw (.panic "rand.Int63n: invalid argument")
+    else
+      let rnd := o.rnd s.rnds i
+      pure (.next { rv := if rnd ≤ pts then m else a.rv, i := i }, { s with rnds := s.rnds + 1 })
+
+/-- the part of `GetMove` after `Analyze` returned `(pv, v, st)` -/
+def getMoveFrom [DecidableEq M] (g : Game P M) (cfg : Cfg) (o : Oracle M) (p : P)
+    (pv : List M) (v : Int) (st : Stats) (s : Eng M) : Except Err (M × Eng M) :=
+  match pv with
+  | [] => .ok (g.zeroMove, s)
+  | pv0 :: rest =>
+    if cfg.randomizeWindow == 0 then .ok (pv0, s)
+    else if v > Facts.winThreshold || v < -Facts.winThreshold then .ok (pv0, s)
+    else
+      match iterate g cfg.opts o p (rootMG st.depth pv)
+          (gmBody g cfg o st.depth rest v (v - cfg.randomizeWindow)) (⟨pv0, 0⟩ : GmAcc M) s with
+      | .error e => .error e
+      | .ok (.next a, s) | .ok (.brk a, s) => .ok (a.rv, s)
+      | .ok (.ret _, s) => .ok (pv0, s)
 
 /-- `GetMove` -/
 def getMove [DecidableEq M] (g : Game P M) (cfg : Cfg) (o : Oracle M) (p : P) (s : Eng M) :
     Except Err (M × Eng M) :=
   match analyze g cfg o p s with
   | .error e => .error e
-  | .ok ((pv, v, st), s) =>
-    match pv with
-    | [] => .ok (g.zeroMove, s)
-    | pv0 :: rest =>
-      if cfg.randomizeWindow == 0 then .ok (pv0, s)
-      else if v > Facts.winThreshold || v < -Facts.winThreshold then .ok (pv0, s)
-      else
-        let base := v - cfg.randomizeWindow
-        let body : M → P → GmAcc M → Eng M → Except Err (Ctl (GmAcc M) Unit × Eng M) :=
-          fun m child a s =>
-            match setA s.stackM 0 m "stack[0].m" with
-            | .error e => .error e
-            | .ok sm =>
-              let s := { s with stackM := sm }
-              match pvSearch g cfg.opts o 1 child (st.depth - 1) rest (-v - 1) (-base) s with
-              | .error e => .error e
-              | .ok ((_, cv), s) =>
-                let cv := -cv
-                if cv ≤ base then .ok (.next a, s)
-                else
-                  let pts := Int.tdiv (cv - base) cfg.randomizeScale
-                  -- fixes/C04-randomize-scale.diff: candidates without positive weight are skipped
-                  if pts ≤ 0 then .ok (.next a, s) else
-                  let i := a.i + pts
-                  if i ≤ 0 then .error (.panic "rand.Int63n: invalid argument")
-                  else
-                    let r := o.rnd s.rnds i
-                    let s := { s with rnds := s.rnds + 1 }
-                    .ok (.next { rv := if r ≤ pts then m else a.rv, i := i }, s)
-        match iterate g cfg.opts o p (rootMG st.depth pv) body (⟨pv0, 0⟩ : GmAcc M) s with
-        | .error e => .error e
-        | .ok (.next a, s) | .ok (.brk a, s) => .ok (a.rv, s)
-        | .ok (.ret _, s) => .ok (pv0, s)
+  | .ok ((pv, v, st), s) => getMoveFrom g cfg o p pv v st s
 
 /-! ### the specification side: exhaustive negamax -/
 
